@@ -438,6 +438,6 @@ def replay(v):
 
 MANIFEST_ENTRY = {
     "level_text": "Partial claim. Every before-validator and serializer pydantic registers for the 15 dimensional fields, parse_units, the frequency-band model validator and the month validator are executed as plain functions with symbolic values: z3 proves that a bare number is stored unchanged, that serialize -> text -> validate is exact for km, m^2, MHz, dB and within 3.5 * 2^-53 relative for the rad -> deg -> rad text conversion (standard model of floating point, astropy's own double factors), that values in alternative units are multiplied by astropy's factor, that incompatible units are rejected, that a band is accepted iff high > low (symbolic edges) and an integer month iff 1 <= m <= 12 (symbolic integer); all 12 x 6 month spellings, datetime months, invalid strings and the six spectrum x cloud variants (id discriminators, dump -> rebuild) are enumerated exhaustively.",
-    "level_note": "NOT covered: the TOML text layer (tomli_w/tomllib -- strings with quotes, backslashes, non-ASCII), pydantic-core's dispatch, astropy's unit-string grammar. Quantity is a stub whose unit algebra is the real astropy's; printing and re-parsing a double is assumed exact.",
+    "level_note": "The layers that cannot be executed symbolically (pydantic-core's dispatch of the validators to the 15 fields, tomli_w/tomllib, astropy's unit-string grammar) are not part of the solver claim; the assumptions the encoding makes about them are probed on the real public API at every run (596 constructions in 3-5 spellings per field; 12 all-non-default configurations, all six variants, strings with quotes / backslashes / non-ASCII, through create_toml -> config_from_toml, leaf by leaf) -- sampling, reported as traces_validated_against_impl. Quantity is a stub whose unit algebra is the real astropy's; printing and re-parsing a double is assumed exact.",
     "technique": "symbolic execution of the real validator/serializer functions + z3 (nlsat; relative-error model of the conversion multiplies); exhaustive enumeration of the finite spelling sets",
 }
